@@ -4,7 +4,8 @@
    which datagrams each listener received; the model is run on the same calls.
    params  = [mode; n; MaxLength as the harness read it from the package];
    input   = the calls: 1 Write [k; len], 2 WriteByte [k], 3 WriteString [k; len],
-             4 Flush [send oracle per destination], 5 Close [close oracle per
+             4 Flush [send oracle per destination: 0 fails, 1 succeeds, 2 succeeds
+             but the destination is down and the datagram is lost], 5 Close [close oracle per
              destination], 6 IsOpen, 7 RemainingBytes, 8 Read.  The bytes of
              write k are payload k len (the harness writes exactly these bytes);
    observed = per call one event 20 [code; aux] followed by one event
@@ -68,23 +69,35 @@ Definition dg_ev (dest : Z) (d : bytes) : ev :=
 Definition count (o : op) : Z :=
   match o with Write b => zlen b | WriteString b => zlen b | _ => 0 end.
 
-Fixpoint obs1 (L : Z) (t : tr) (ops : list op) : list ev :=
-  match ops with
+(* The Flush oracle of the harness has three values per destination: 0 the
+   send fails, 1 it succeeds, 2 it succeeds but the destination is not
+   listening (its port is closed).  For the model 1 and 2 are the same call
+   (conn.Write succeeds, the buffer is handed over); a datagram handed over
+   with oracle 2 is lost in the network and cannot be observed. *)
+Definition lost (e : ev) : list bool :=
+  if ek e =? 4 then map (fun x => x =? 2) (ei e) else [].
+
+Fixpoint obs1 (L : Z) (t : tr) (es : list ev) : list ev :=
+  match es with
   | [] => []
-  | o :: r =>
+  | e :: r =>
+      let o := op_of_ev e in
       let '(t', x, d) := step L t o in
-      res_ev (count o) x :: map (dg_ev 0) (opt d) ++ obs1 L t' r
+      res_ev (count o) x :: (if hd false (lost e) then [] else map (dg_ev 0) (opt d)) ++ obs1 L t' r
   end.
 
-Fixpoint dgs (i : Z) (outs : list (option bytes)) : list ev :=
-  match outs with [] => [] | o :: r => map (dg_ev i) (opt o) ++ dgs (i + 1) r end.
-
-Fixpoint obsm (L : Z) (ts : list tr) (ms : list mop) : list ev :=
-  match ms with
+Fixpoint dgs (i : Z) (outs : list (option bytes)) (ls : list bool) : list ev :=
+  match outs with
   | [] => []
-  | m :: r =>
-      let x := mstep L ts m in
-      res_ev (mwritten x) (mres x) :: dgs 0 (mouts x) ++ obsm L (mts x) r
+  | o :: r => (if hd false ls then [] else map (dg_ev i) (opt o)) ++ dgs (i + 1) r (tl ls)
+  end.
+
+Fixpoint obsm (L : Z) (ts : list tr) (es : list ev) : list ev :=
+  match es with
+  | [] => []
+  | e :: r =>
+      let x := mstep L ts (mop_of_ev e) in
+      res_ev (mwritten x) (mres x) :: dgs 0 (mouts x) (lost e) ++ obsm L (mts x) r
   end.
 
 Definition check (c : gcase) : Z :=
@@ -92,8 +105,8 @@ Definition check (c : gcase) : Z :=
   | [mode; n; L] =>
       if negb (L =? udp_max_length) then 9 else
       let expect :=
-        if mode =? 0 then obs1 L fresh (map op_of_ev (ginput c))
-        else obsm L (repeat fresh (Z.to_nat n)) (map mop_of_ev (ginput c)) in
+        if mode =? 0 then obs1 L fresh (ginput c)
+        else obsm L (repeat fresh (Z.to_nat n)) (ginput c) in
       if evs_eqb expect (gobserved c) then 0 else 1
   | _ => 8
   end.
